@@ -143,15 +143,22 @@ async fn log_thread(
                 }
             };
             line += "\r\n";
-            stream
-                .write(line.as_bytes())
-                .await
-                .context("log write error")?;
+            // a log that cannot be written (disk full, file system gone) costs records, not the process
+            if let Err(err) = stream.write(line.as_bytes()).await {
+                warn!("access log: record lost, write error: {}", err);
+            }
         } else {
             info!("log rotate");
-            stream.flush().await.context("flush")?;
-            stream.shutdown().await.context("shutdown")?;
-            stream = BufWriter::new(log_open(&path).await?);
+            if let Err(err) = stream.flush().await {
+                warn!("access log: flush failed, buffered records lost: {}", err);
+            }
+            if let Err(err) = stream.shutdown().await {
+                warn!("access log: closing the log file failed: {}", err);
+            }
+            match log_open(&path).await {
+                Ok(file) => stream = BufWriter::new(file),
+                Err(err) => warn!("access log: {} cause: {:?}", err, err.cause),
+            }
         }
     }
 }
